@@ -2,7 +2,7 @@
    Statements only; proofs are in proofs/ChanP.v. *)
 From Coq Require Import List Bool Arith.
 Import ListNotations.
-Require Import EV.model.Chan EV.proofs.ChanP EV.gen.Facts.
+Require Import EV.model.Chan EV.proofs.ChanP EV.model.Link EV.proofs.LinkP EV.gen.Facts.
 
 (* the configuration of the channel model as read off the source by tools/gen_facts.py; the shape facts say that
    the functions the model's atomic steps stand for still have the modelled structure *)
@@ -38,6 +38,46 @@ Print Assumptions C03_close_completes.
 Theorem C03_close_enabled : forall c s id, held (cs s id) = true -> closed (cs s id) = false -> exists s', cstep c s (LClose id) = Some s'.
 Proof. exact close_enabled. Qed.
 Print Assumptions C03_close_enabled.
+
+(* ---- the sending side composed with the receiving machine (model/Link.v): senders, closers and __del__ of side A at the
+   granularity test / message / local tail, both receiver threads, all consumers, any interleaving ---- *)
+
+(* what send() reported as sent is what the receiving machine accounts as sent, and (lossless) it is obtained, queued or in
+   flight, in order: a send() that raised put nothing on the wire *)
+Theorem C03_returned_is_delivered : forall n1 n2 n3 ls id, lossless (b (lrun chan_cfg ls (linit n1 n2 n3))) id = true ->
+  ret (lrun chan_cfg ls (linit n1 n2 n3)) id = got (b (lrun chan_cfg ls (linit n1 n2 n3))) id
+     ++ qitems (oq (q (cs (b (lrun chan_cfg ls (linit n1 n2 n3))) id))) ++ witems id (wire (b (lrun chan_cfg ls (linit n1 n2 n3)))).
+Proof. exact (returned_is_delivered chan_cfg C03_C). Qed.
+Print Assumptions C03_returned_is_delivered.
+
+(* close is ordered after data: when the peer's receiver is about to handle an End frame of channel id, the k items whose send()
+   had returned before the first close() / __del__ of that channel BEGAN are all obtained or queued over there (in order, by
+   the theorem above); what is still in flight was sent in a race with the close *)
+Theorem C03_close_after_data : forall n1 n2 n3 ls id k kd w2,
+  pre (lrun chan_cfg ls (linit n1 n2 n3)) id = Some k -> wire (b (lrun chan_cfg ls (linit n1 n2 n3))) = FEnd id kd :: w2 ->
+  lossless (b (lrun chan_cfg ls (linit n1 n2 n3))) id = true ->
+  firstn k (ret (lrun chan_cfg ls (linit n1 n2 n3)) id) =
+  firstn k (got (b (lrun chan_cfg ls (linit n1 n2 n3))) id ++ qitems (oq (q (cs (b (lrun chan_cfg ls (linit n1 n2 n3))) id)))).
+Proof. exact (close_after_data_prefix chan_cfg C03_C). Qed.
+Print Assumptions C03_close_after_data.
+
+(* End frames come only from a close() / __del__ that has begun; a send() on a closed channel is refused *)
+Theorem C03_end_only_after_close_began : forall n1 n2 n3 ls id k, In (FEnd id k) (wire (b (lrun chan_cfg ls (linit n1 n2 n3)))) ->
+  pre (lrun chan_cfg ls (linit n1 n2 n3)) id <> None.
+Proof. exact (end_only_after_close_began chan_cfg C03_C). Qed.
+Print Assumptions C03_end_only_after_close_began.
+Theorem C03_send_refused_when_closed : forall c s t id x s', closed (cs (a s) id) = true -> lstep c s (KSendBegin t id x) = Some s' ->
+  b s' = b s /\ ret s' = ret s /\ pcs s' = pcs s /\ refused s' id = S (refused s id).
+Proof. exact send_refused_when_closed. Qed.
+Print Assumptions C03_send_refused_when_closed.
+
+(* non-vacuity: two sends return, close begins, a third send races past the test and goes out after the CLOSE frame; B's receiver
+   has handled the two items when the End is at the head of its wire *)
+Example C03_link_witness : let s := lrun chan_cfg [KA (LNew 1); KB (LNew 1); KSendBegin 0 1 7; KSendEmit 0; KSendBegin 0 1 8; KSendEmit 0;
+    KSendBegin 0 1 9; KCloseBegin 1 1 false; KCloseEmit 1; KSendEmit 0; KCloseTail 1; KSendBegin 0 1 10; KB LRecv; KB LRecv] (linit 2 1 1) in
+  pre s 1 = Some 2 /\ ret s 1 = [7; 8; 9] /\ refused s 1 = 1 /\ wire (b s) = [FEnd 1 KClose; FData 1 9] /\
+  q (cs (b s) 1) = Some [Item 7; Item 8] /\ lossless (b s) 1 = true.
+Proof. vm_compute. repeat split. Qed.
 
 Example C03_witness : let s := crun chan_cfg [LNew 1; LPeerSend 1 7; LPeerEnd 1 KClose; LPeerSend 1 8; LRecv; LRecv; LRecv; LGet 0 1; LGet 0 1; LGet 1 1] (cinit 2) in
   rclosed (cs s 1) = true /\ q (cs s 1) = Some [] /\ holders 1 (thr s) = 1 /\ got s 1 = [7].
